@@ -793,8 +793,13 @@ func ruleRequiredGuard(c *Ctx, rule string) {
 			if isRangeCond(g.Cond) || isErrNilTest(g.Cond) || c.isKindDispatch(g.Cond) {
 				continue
 			}
+			if sliceMentionsField(g.Cond, "Index") && (sliceMentionsField(g.Cond, "name") || sliceMentionsField(g.Cond, "Properties")) {
+				continue // which of two fields with the same JSON name is kept (C04/json-name-conflicts)
+			}
 			if c.dependsOnIndexPath(g.Cond, 5) {
-				viaPointer = true
+				if c.testsPointerKind(g.Cond) {
+					viaPointer = true
+				}
 				continue
 			}
 			if !skippable(g, st) {
@@ -1674,4 +1679,228 @@ func (c *Ctx) boundsFromHelper(m *inferModel, v ssa.Value, ks KindSet) (map[int]
 		}
 	})
 	return out, okAll
+}
+
+func init() {
+	for _, pid := range []string{"C04", "C09"} {
+		pid := pid
+		p := Properties[pid]
+		p.Rules = append(p.Rules, Rule{pid + "/json-name-conflicts", func(c *Ctx) { ruleJSONNameConflicts(c, pid+"/json-name-conflicts") }})
+	}
+}
+
+// Two visible fields can have the same JSON name (a tag on an outer field and on a field of an embedded struct).
+// encoding/json keeps the one at the smallest embedding depth (and drops both on a tie without a tagged winner);
+// the inferred property must describe that field. So where a field's schema is entered under its JSON name, the
+// code must look whether the name is already taken and decide by the depth of the fields (len(field.Index)).
+func ruleJSONNameConflicts(c *Ctx, rule string) {
+	m := c.inferModel(rule)
+	if m == nil {
+		return
+	}
+	n := 0
+	c.eachFam(m.fn, func(i ssa.Instruction) {
+		mu, ok := i.(*ssa.MapUpdate)
+		if !ok || !c.mentionsField(mu.Map, "Schema.Properties", 4) {
+			return
+		}
+		// keyed by the parsed JSON name of the field
+		fromName := false
+		for _, src := range append(traceSources(mu.Key), mu.Key) {
+			if mentionsStructFieldNamed(src, "name", 3) {
+				fromName = true
+			}
+		}
+		if !fromName {
+			return
+		}
+		n++
+		// (the skip of fields promoted from an overridden struct compares index paths too, but it is not about this name)
+		byDepth := false
+		for _, g := range controlGuards(mu) {
+			if isRangeCond(g.Cond) {
+				continue
+			}
+			if sliceMentionsField(g.Cond, "Index") && (sliceMentionsField(g.Cond, "name") || sliceMentionsField(g.Cond, "Properties")) {
+				byDepth = true
+			}
+		}
+		// where the depths of the two fields are compared directly, the entry may only happen when the holder is not shallower
+		for _, g := range controlGuards(mu) {
+			b, ok := g.Cond.(*ssa.BinOp)
+			if !ok {
+				continue
+			}
+			holderLeft := sliceMentionsField(b.X, "name") && !sliceMentionsField(b.X, "Index") && sliceMentionsField(b.Y, "Index") && !sliceMentionsField(b.Y, "name")
+			holderRight := sliceMentionsField(b.Y, "name") && !sliceMentionsField(b.Y, "Index") && sliceMentionsField(b.X, "Index") && !sliceMentionsField(b.X, "name")
+			if !holderLeft && !holderRight {
+				continue
+			}
+			op := b.Op
+			if holderRight { // normalise to holder OP newcomer
+				op = map[token.Token]token.Token{token.LSS: token.GTR, token.GTR: token.LSS, token.LEQ: token.GEQ, token.GEQ: token.LEQ}[op]
+			}
+			if !g.Pol {
+				op = map[token.Token]token.Token{token.LSS: token.GEQ, token.GTR: token.LEQ, token.LEQ: token.GTR, token.GEQ: token.LSS}[op]
+			}
+			if op == token.LSS || op == token.LEQ {
+				c.R.Check(false, rule, "forType:properties[name]:shallower-wins", c.pos(mu), "of two fields with one JSON name the shallower one is kept", fmt.Sprintf("the field's schema replaces the holder of its JSON name only when the holder is shallower (comparison at %s): the deeper of two fields with one JSON name wins, encoding/json emits the shallower one", c.pos(g.At)))
+			} else if op == token.GEQ || op == token.GTR {
+				c.R.Check(true, rule, "forType:properties[name]:shallower-wins", c.pos(mu), "of two fields with one JSON name the shallower one is kept", "")
+			}
+		}
+		c.R.Check(byDepth, rule, "forType:properties[name]:dominant-field", c.pos(mu), "a JSON name that is already taken is resolved by the embedding depth of the two fields", "a field's schema is entered under its JSON name without looking whether the name is already taken and which of the two fields is shallower: for struct{ C int `json:\"c\"`; Inner } with Inner{ X string `json:\"c\"` } encoding/json emits the outer field, but the inferred property describes the inner one (the later field wins) and the name is listed twice in `required`")
+	})
+	c.R.Floor(rule, "entries of field schemas under their JSON name", n, 1)
+}
+
+// backSlice: the values v is computed from (data dependences only), looking through local struct variables
+// (stores to the variable and to its fields), map lookups, tuples, phis and the arguments of calls.
+func backSlice(v ssa.Value, limit int) []ssa.Value {
+	seen := map[ssa.Value]bool{}
+	var out []ssa.Value
+	var walk func(v ssa.Value)
+	walk = func(v ssa.Value) {
+		if v == nil || seen[v] || len(out) >= limit {
+			return
+		}
+		seen[v] = true
+		out = append(out, v)
+		switch x := v.(type) {
+		case *ssa.UnOp:
+			walk(x.X)
+			if x.Op == token.MUL {
+				for _, sv := range localStores(x.X) {
+					walk(sv)
+				}
+			}
+		case *ssa.FieldAddr:
+			walk(x.X)
+		case *ssa.Field:
+			walk(x.X)
+		case *ssa.BinOp:
+			walk(x.X)
+			walk(x.Y)
+		case *ssa.Phi:
+			for _, e := range x.Edges {
+				walk(e)
+			}
+		case *ssa.Extract:
+			walk(x.Tuple)
+		case *ssa.Lookup:
+			walk(x.X)
+			walk(x.Index)
+		case *ssa.Index:
+			walk(x.X)
+		case *ssa.IndexAddr:
+			walk(x.X)
+		case *ssa.Slice:
+			walk(x.X)
+		case *ssa.Convert:
+			walk(x.X)
+		case *ssa.ChangeType:
+			walk(x.X)
+		case *ssa.MakeInterface:
+			walk(x.X)
+		case *ssa.Call:
+			for _, a := range x.Call.Args {
+				walk(a)
+			}
+		}
+	}
+	walk(v)
+	return out
+}
+
+// localStores: the values stored to the local variable (or the field of a local struct variable) at addr.
+func localStores(addr ssa.Value) []ssa.Value {
+	var out []ssa.Value
+	switch a := addr.(type) {
+	case *ssa.Alloc:
+		for _, r := range *a.Referrers() {
+			if st, ok := r.(*ssa.Store); ok && st.Addr == a {
+				out = append(out, st.Val)
+			}
+		}
+	case *ssa.FieldAddr:
+		al, ok := a.X.(*ssa.Alloc)
+		if !ok {
+			return nil
+		}
+		for _, r := range *al.Referrers() {
+			switch r := r.(type) {
+			case *ssa.Store:
+				if r.Addr == al {
+					out = append(out, r.Val)
+				}
+			case *ssa.FieldAddr:
+				if r.Field != a.Field {
+					continue
+				}
+				for _, rr := range *r.Referrers() {
+					if st, ok := rr.(*ssa.Store); ok && st.Addr == r {
+						out = append(out, st.Val)
+					}
+				}
+			}
+		}
+	}
+	return out
+}
+
+// sliceMentionsField: some value v is computed from reads the field with the given canonical name.
+func sliceMentionsField(v ssa.Value, name string) bool {
+	for _, x := range backSlice(v, 200) {
+		switch x := x.(type) {
+		case *ssa.Field:
+			if core.CanonFieldOf(x.X.Type(), x.Field) == name {
+				return true
+			}
+		case *ssa.FieldAddr:
+			if core.CanonFieldOf(x.X.Type(), x.Field) == name {
+				return true
+			}
+		}
+	}
+	return false
+}
+
+// testsPointerKind: the condition is computed from a comparison of a reflect.Kind with reflect.Pointer,
+// in the function itself or in a module function it calls.
+func (c *Ctx) testsPointerKind(v ssa.Value) bool {
+	isPtrCmp := func(x ssa.Value) bool {
+		b, ok := x.(*ssa.BinOp)
+		if !ok || (b.Op != token.EQL && b.Op != token.NEQ) {
+			return false
+		}
+		for _, o := range []ssa.Value{b.X, b.Y} {
+			if k, ok := o.(*ssa.Const); ok && k.Value != nil && types.TypeString(k.Type(), nil) == "reflect.Kind" {
+				if n, ok := constant.Int64Val(k.Value); ok && n == 22 /* reflect.Pointer */ {
+					return true
+				}
+			}
+		}
+		return false
+	}
+	for _, x := range backSlice(v, 200) {
+		if isPtrCmp(x) {
+			return true
+		}
+		if call, ok := x.(*ssa.Call); ok {
+			if callee := call.Call.StaticCallee(); callee != nil && c.P.InPkg(callee) {
+				found := false
+				for _, fn := range c.familyFuncs(callee) {
+					core.EachInstr(fn, func(i ssa.Instruction) {
+						if val, ok := i.(ssa.Value); ok && isPtrCmp(val) {
+							found = true
+						}
+					})
+				}
+				if found {
+					return true
+				}
+			}
+		}
+	}
+	return false
 }
